@@ -547,3 +547,41 @@ def bank_combo_cases(mags):
                         out.append({"family": name, "param": m, "group": "magnitude", "pos": name,
                                     "files": {"main.asm": bank_combo_program(sized, far_outp, place, fill, m)}, "args": []})
     return out
+
+
+# ----------------------------------------------------------------------------- positions next to the top of the word
+NEAR_TOP_PATHS = {0: "labelalign", 1: "align", 2: "res", 3: "data", 4: "instruction", 5: "asm_instruction", 6: "addr", 7: "bank_switch_res"}
+
+
+def near_top_program(path, n, k):
+    top = (1 << 64) - k
+    s = "#ruledef\n{\n    nop => 0x00\n    two => asm { nop\n nop }\n}\n"
+    s += "#bankdef a\n{\n    #bits 1\n    #addr 0\n    #outp 0\n"
+    if path == 0:
+        s += "    #labelalign %d\n" % n
+    s += "}\n"
+    if path == 7:
+        s += "#bankdef b\n{\n    #bits 1\n    #addr 0\n}\n#bank a\n"
+    s += "#addr %d\n" % top
+    s += {0: "", 1: "#align %d\n" % n, 2: "#res %d\n" % n, 3: "#d8 1\n", 4: "nop\n", 5: "two\n",
+          6: "#addr %d\n" % (top + n), 7: "#bank b\n#res 1\n#bank a\n#res %d\n" % n}[path]
+    return s + "x:\n"
+
+
+def near_top_cases(quick=True):
+    out = []
+    ns = {0: [2, 3, 8, 64, 1 << 32, 1 << 63], 1: [2, 3, 8, 64, 1 << 32, 1 << 63], 2: [1, 8, 64, (1 << 32) - 1],
+          3: [8], 4: [8], 5: [16], 6: [1, 8, 64], 7: [1, 8, 64]}
+    for path, nl in ns.items():
+        for n in nl:
+            ks = set([1, 2, 3, 7, 8, 9, 15, 16, 17, 63, 64, 65, 1 << 32, 1 << 63])
+            for d in (-1, 0, 1):
+                if n + d >= 1:
+                    ks.add(n + d)
+            for k in sorted(ks):
+                if k > (1 << 64):
+                    continue
+                name = "neartop_%d_%x" % (path, n)
+                out.append({"family": name, "param": k, "group": "magnitude", "pos": name,
+                            "files": {"main.asm": near_top_program(path, n, k)}, "args": []})
+    return out
